@@ -2,5 +2,5 @@ SPECIFICATION Spec
 CONSTANT Off = {}
 CONSTANT Family = "loop3"
 INVARIANTS Safe TypeOk AbsInv OptionsOk Normalises SuffixIndependent Export
-PROPERTIES LoopProgress Monotone Terminates RefinesLen
+PROPERTIES LoopProgress Monotone Terminates RefinesLen IdleAdvances AbsProgress
 CHECK_DEADLOCK FALSE
